@@ -14,6 +14,7 @@ mod comp_rtte;
 mod comp_rx;
 mod comp_segs;
 mod comp_tx;
+mod comp_pair;
 mod comp_vsock;
 mod comp_wire;
 mod comp_seqnr;
@@ -28,6 +29,7 @@ const DISPATCHERS: &[fn(&[&str]) -> Option<String>] = &[
     comp_cubic::dispatch,
     comp_wire::dispatch,
     comp_vsock::dispatch,
+    comp_pair::dispatch,
     comp_mtu::dispatch,
     comp_disp::dispatch,
 ];
